@@ -8,7 +8,7 @@ use std::hash::{Hash, Hasher};
 use std::panic::{catch_unwind, AssertUnwindSafe};
 
 #[derive(Clone, Debug, serde::Serialize, serde::Deserialize)]
-struct It { id: u16, tag: u32 }
+struct It { id: u16, tag: u32, #[serde(skip, default)] own: Box<u8> }   // `own`: a heap allocation, so that Miri sees a double drop
 impl PartialEq for It { fn eq(&self, o: &Self) -> bool { tick("user Eq::eq"); self.id == o.id } }
 impl Eq for It {}
 impl Hash for It { fn hash<H: Hasher>(&self, h: &mut H) { tick("user Hash::hash"); self.id.hash(h) } }
@@ -99,14 +99,14 @@ macro_rules! common { ($T:ident) => {
     fn new() -> Self { $T::new() }
     fn len(&self) -> usize { $T::len(self) }
     fn push(&mut self, i: It, p: i32) -> Option<i32> { $T::push(self, i, Pr(p)).map(|x| x.0) }
-    fn get(&self, id: u16) -> Option<(u32, i32)> { $T::get(self, &It { id, tag: 0 }).map(|(i, p)| (i.tag, p.0)) }
+    fn get(&self, id: u16) -> Option<(u32, i32)> { $T::get(self, &It { id, tag: 0, own: Box::new(0) }).map(|(i, p)| (i.tag, p.0)) }
     fn iter_pairs(&self) -> Vec<(u16, u32, i32)> { self.iter().map(|(i, p)| (i.id, i.tag, p.0)).collect() }
     fn iter_len_hint(&self) -> (usize, (usize, Option<usize>)) { let it = self.iter(); (it.len(), it.size_hint()) }
-    fn change(&mut self, id: u16, p: i32) -> Option<i32> { self.change_priority(&It { id, tag: 9999 }, Pr(p)).map(|x| x.0) }
-    fn change_by(&mut self, id: u16, d: i32) -> bool { self.change_priority_by(&It { id, tag: 9999 }, |p| *p += d) }
+    fn change(&mut self, id: u16, p: i32) -> Option<i32> { self.change_priority(&It { id, tag: 9999, own: Box::new(0) }, Pr(p)).map(|x| x.0) }
+    fn change_by(&mut self, id: u16, d: i32) -> bool { self.change_priority_by(&It { id, tag: 9999, own: Box::new(0) }, |p| *p += d) }
     fn push_inc(&mut self, i: It, p: i32) -> Option<i32> { self.push_increase(i, Pr(p)).map(|x| x.0) }
     fn push_dec(&mut self, i: It, p: i32) -> Option<i32> { self.push_decrease(i, Pr(p)).map(|x| x.0) }
-    fn remove(&mut self, id: u16) -> Option<(It, i32)> { $T::remove(self, &It { id, tag: 9999 }).map(|(i, p)| (i, p.0)) }
+    fn remove(&mut self, id: u16) -> Option<(It, i32)> { $T::remove(self, &It { id, tag: 9999, own: Box::new(0) }).map(|(i, p)| (i, p.0)) }
     fn retain_mut(&mut self, m: u16, d: i32) { $T::retain_mut(self, |i, p| { *p += d * (i.id as i32 % 3 - 1); i.id % m != 0 }) }
     fn extend_h(&mut self, v: Vec<(It, i32)>, lo: usize, hi: Option<usize>) { self.extend(Hinted { it: pr(v).into_iter(), lo, hi }) }
     fn append_from(&mut self, v: Vec<(It, i32)>) -> (usize, usize, usize) { let mut o: Self = pr(v).into_iter().collect(); self.append(&mut o); (o.len(), o.iter().count(), o.iter().len()) }
@@ -114,7 +114,7 @@ macro_rules! common { ($T:ident) => {
     fn drain_k(&mut self, k: usize, forget: bool) -> Vec<(It, i32)> {
         let mut d = self.drain(); let mut got = vec![]; for _ in 0..k { if let Some(x) = d.next() { got.push((x.0, (x.1).0)); } }
         if forget { std::mem::forget(d); } else { got.extend(d.map(|(i, p)| (i, p.0))); } got }
-    fn set_tag(&mut self, id: u16, tag: u32) -> bool { match self.get_mut(&It { id, tag: 0 }) { Some((i, _)) => { i.tag = tag; true } None => false } }
+    fn set_tag(&mut self, id: u16, tag: u32) -> bool { match self.get_mut(&It { id, tag: 0, own: Box::new(0) }) { Some((i, _)) => { i.tag = tag; true } None => false } }
     fn from_vec(v: Vec<(It, i32)>) -> Self { $T::from(pr(v)) }
     fn from_it(v: Vec<(It, i32)>, lo: usize, hi: Option<usize>) -> Self { Hinted { it: pr(v).into_iter(), lo, hi }.collect() }
     fn roundtrip(&self) -> Result<Self, String> { let s = serde_json::to_string(self).map_err(|e| e.to_string())?; serde_json::from_str(&s).map_err(|e| e.to_string()) }
@@ -126,20 +126,20 @@ macro_rules! common { ($T:ident) => {
         let lg = (usize::BITS - n.leading_zeros()) as u64;
         let single = 14 * lg + 24;                // a sift visits <= log2 n levels, <= 7 comparisons per two levels in the min-max heap
         let bulk = 8 * n as u64 + 64;             // Floyd's construction is linear
-        let asc: Vec<(It, Pr)> = (0..n).map(|j| (It { id: j as u16, tag: 0 }, Pr(j as i32))).collect();
+        let asc: Vec<(It, Pr)> = (0..n).map(|j| (It { id: j as u16, tag: 0, own: Box::new(0) }, Pr(j as i32))).collect();
         macro_rules! cost { ($what:expr, $limit:expr, $e:expr) => { let c0 = cmps(); let _ = $e; let c = cmps() - c0; if std::env::var("PQ_CEX_COSTS").is_ok() { eprintln!("{:55} {:8} / {}", $what, c, $limit); } if c > $limit { return Err(format!("{} on {} elements: {} comparisons, budget {}", $what, n, c, $limit)); } } }
         cost!("from(Vec)", bulk, { let q: Self = $T::from(asc.clone()); q });
         cost!("collect() from an ascending iterator", bulk, { let q: Self = asc.clone().into_iter().collect(); q });
         let mut q: Self = asc.clone().into_iter().collect();
-        cost!("extend with n new pairs", 2 * bulk, q.extend((n..2 * n).map(|j| (It { id: j as u16, tag: 0 }, Pr(j as i32)))));
+        cost!("extend with n new pairs", 2 * bulk, q.extend((n..2 * n).map(|j| (It { id: j as u16, tag: 0, own: Box::new(0) }, Pr(j as i32)))));
         let mut q: Self = asc.clone().into_iter().collect();
-        cost!("push of a new maximum", single, q.push(It { id: 60000, tag: 0 }, Pr(i32::MAX)));
-        cost!("push of a new minimum", single, q.push(It { id: 60001, tag: 0 }, Pr(i32::MIN)));
-        cost!("change_priority of the first item to the maximum", single, q.change_priority(&It { id: 0, tag: 0 }, Pr(i32::MAX - 1)));
-        cost!("change_priority of the last item to the minimum", single, q.change_priority(&It { id: (n - 1) as u16, tag: 0 }, Pr(i32::MIN + 1)));
-        cost!("push_increase", single, q.push_increase(It { id: 5, tag: 0 }, Pr(i32::MAX - 2)));
-        cost!("push_decrease", single, q.push_decrease(It { id: 7, tag: 0 }, Pr(i32::MIN + 2)));
-        cost!("remove", single, $T::remove(&mut q, &It { id: 9, tag: 0 }));
+        cost!("push of a new maximum", single, q.push(It { id: 60000, tag: 0, own: Box::new(0) }, Pr(i32::MAX)));
+        cost!("push of a new minimum", single, q.push(It { id: 60001, tag: 0, own: Box::new(0) }, Pr(i32::MIN)));
+        cost!("change_priority of the first item to the maximum", single, q.change_priority(&It { id: 0, tag: 0, own: Box::new(0) }, Pr(i32::MAX - 1)));
+        cost!("change_priority of the last item to the minimum", single, q.change_priority(&It { id: (n - 1) as u16, tag: 0, own: Box::new(0) }, Pr(i32::MIN + 1)));
+        cost!("push_increase", single, q.push_increase(It { id: 5, tag: 0, own: Box::new(0) }, Pr(i32::MAX - 2)));
+        cost!("push_decrease", single, q.push_decrease(It { id: 7, tag: 0, own: Box::new(0) }, Pr(i32::MIN + 2)));
+        cost!("remove", single, $T::remove(&mut q, &It { id: 9, tag: 0, own: Box::new(0) }));
         cost!("pop_hi", single, Q::pop_hi(&mut q));
         cost!("pop_lo", single, Q::pop_lo(&mut q));
         cost!("pop_if (rejecting, demoting to the minimum)", single, Q::pop_hi_if(&mut q, i32::MIN + 3, false));
@@ -175,10 +175,10 @@ macro_rules! common { ($T:ident) => {
     fn faulty(&mut self, which: u64, k: usize, id: u16) {
         let mut n = 0usize;
         match which {
-            0 => { self.change_priority_by(&It { id, tag: 0 }, |p| { *p -= 1000; panic!("user closure") }); }
+            0 => { self.change_priority_by(&It { id, tag: 0, own: Box::new(0) }, |p| { *p -= 1000; panic!("user closure") }); }
             1 => { $T::retain_mut(self, |_, p| { n += 1; *p -= 7; if n > k { panic!("user predicate") } n % 2 == 0 }); }
             2 => { $T::retain(self, |_, _| { n += 1; if n > k { panic!("user predicate") } n % 3 != 0 }); }
-            3 => { let l = $T::len(self); self.extend((0..l + 40).map(|j| { if j > k { panic!("user iterator") } (It { id: (j * 7 % 60) as u16, tag: 1 }, Pr((j % 11) as i32)) })); }
+            3 => { let l = $T::len(self); self.extend((0..l + 40).map(|j| { if j > k { panic!("user iterator") } (It { id: (j * 7 % 60) as u16, tag: 1, own: Box::new(0) }, Pr((j % 11) as i32)) })); }
             4 => { for (_, p) in self.iter_mut() { n += 1; *p += 13 * (n as i32 % 5); if n > k { panic!("user loop body") } } }
             _ => { let mut d = self.drain(); for _ in 0..k { d.next(); } panic!("user code while draining") }
         }
@@ -282,18 +282,18 @@ fn step<T: Q>(q: &mut T, m: &mut Model, r: &mut Rng, log: &mut Vec<String>) -> R
     // an observable that is wrong right after an operation is also a failure of what that operation promises
     let oplabel = match op { 9 | 10 => "C11", 15 | 16 => "C08", 17 => "C08,C09", 18 | 19 => "C07", 20 => "C16", 21 => "C12", 22 => "C14,C15,C06,C07", 24 => "C17", _ => "" };
     match op {
-        0..=6 => { log.push(format!("push({},{})", id, p)); let old = q.push(It { id, tag }, p);
+        0..=6 => { log.push(format!("push({},{})", id, p)); let old = q.push(It { id, tag, own: Box::new(0) }, p);
             ck!(old == m.get(&id).map(|x| x.1), "C03", "push returned {:?}, stored priority was {:?}", old, m.get(&id).map(|x| x.1));
             let t = m.get(&id).map(|x| x.0).unwrap_or(tag); m.insert(id, (t, p)); }
         7 => { log.push(format!("change_priority({},{})", id, p)); let old = q.change(id, p);
             ck!(old == m.get(&id).map(|x| x.1), "C03", "change_priority returned {:?}", old); if let Some(e) = m.get_mut(&id) { e.1 = p; } }
         8 => { log.push(format!("change_priority_by({},+{})", id, p)); let was = q.change_by(id, p);
             ck!(was == m.contains_key(&id), "C03", "change_priority_by returned {}", was); if let Some(e) = m.get_mut(&id) { e.1 += p; } }
-        9 => { log.push(format!("push_increase({},{})", id, p)); let rr = q.push_inc(It { id, tag }, p);
+        9 => { log.push(format!("push_increase({},{})", id, p)); let rr = q.push_inc(It { id, tag, own: Box::new(0) }, p);
             match m.get(&id).copied() { None => { ck!(rr.is_none(), "C11", "push_increase of an absent item returned {:?}", rr); m.insert(id, (tag, p)); }
                 Some((t, op)) => if p > op { ck!(rr == Some(op), "C11", "push_increase returned {:?}, old priority {}", rr, op); m.insert(id, (t, p)); }
                                  else { ck!(rr == Some(p), "C11", "push_increase (not greater) returned {:?}, offered {}", rr, p); } } }
-        10 => { log.push(format!("push_decrease({},{})", id, p)); let rr = q.push_dec(It { id, tag }, p);
+        10 => { log.push(format!("push_decrease({},{})", id, p)); let rr = q.push_dec(It { id, tag, own: Box::new(0) }, p);
             match m.get(&id).copied() { None => { ck!(rr.is_none(), "C11", "push_decrease of an absent item returned {:?}", rr); m.insert(id, (tag, p)); }
                 Some((t, op)) => if p < op { ck!(rr == Some(op), "C11", "push_decrease returned {:?}, old priority {}", rr, op); m.insert(id, (t, p)); }
                                  else { ck!(rr == Some(p), "C11", "push_decrease (not smaller) returned {:?}, offered {}", rr, p); } } }
@@ -325,7 +325,7 @@ fn step<T: Q>(q: &mut T, m: &mut Model, r: &mut Rng, log: &mut Vec<String>) -> R
             let n = order.len(); let kk = k.min(n);
             let touched: Vec<u16> = if b && T::kind() != "PriorityQueue" { order[n - kk..].to_vec() } else { order[..kk].to_vec() };
             for t in touched { m.get_mut(&t).unwrap().1 += d; } }
-        18 => { let n = r.below(70) as usize; let v: Vec<(It, i32)> = (0..n).map(|_| (It { id: r.below(ids + 20) as u16, tag: r.below(1000) as u32 }, r.below(9) as i32)).collect();
+        18 => { let n = r.below(70) as usize; let v: Vec<(It, i32)> = (0..n).map(|_| (It { id: r.below(ids + 20) as u16, tag: r.below(1000) as u32, own: Box::new(0) }, r.below(9) as i32)).collect();
             let (lo, hi) = match r.below(4) { 0 => (n, Some(n)), 1 => (0, None), 2 => (0, Some(usize::MAX)), _ => (n / 2, Some(n * 40 + 1000)) };
             log.push(format!("extend({} pairs, hint ({}, {:?}))", n, lo, hi));
             for (i, p) in &v { let t = m.get(&i.id).map(|x| x.0).unwrap_or(i.tag); m.insert(i.id, (t, *p)); }
@@ -333,11 +333,11 @@ fn step<T: Q>(q: &mut T, m: &mut Model, r: &mut Rng, log: &mut Vec<String>) -> R
         19 if r.below(3) == 0 && !m.is_empty() && m.len() <= 40 => {
             // equal lengths with clashes, the other queue having more room: the receiver's pairs stay
             let keys: Vec<u16> = m.keys().copied().collect(); let mut v: Vec<(It, i32)> = vec![]; let mut fresh = 100u16;
-            for k in &keys { if r.below(2) == 0 { v.push((It { id: *k, tag: 7 }, r.below(9) as i32 + 20)); } else { v.push((It { id: fresh, tag: 7 }, r.below(9) as i32)); fresh += 1; } }
+            for k in &keys { if r.below(2) == 0 { v.push((It { id: *k, tag: 7, own: Box::new(0) }, r.below(9) as i32 + 20)); } else { v.push((It { id: fresh, tag: 7, own: Box::new(0) }, r.below(9) as i32)); fresh += 1; } }
             let room = r.below(200) as usize; log.push(format!("append(queue of equal length {} with {} spare capacity)", v.len(), room));
             let left = q.append_roomy(v.clone(), room); ck!(left == (0, 0, 0), "C07,C16,C13", "append leaves the other queue with (len, iter().count(), iter().len()) = {:?}", left);
             for (i, p) in v { if !m.contains_key(&i.id) { m.insert(i.id, (i.tag, p)); } } }
-        19 => { let n = r.below(40) as usize; let mut v: Vec<(It, i32)> = vec![]; for _ in 0..n { let i = r.below(ids + 20) as u16; if !v.iter().any(|x| x.0.id == i) { v.push((It { id: i, tag: 7 }, r.below(9) as i32)); } }
+        19 => { let n = r.below(40) as usize; let mut v: Vec<(It, i32)> = vec![]; for _ in 0..n { let i = r.below(ids + 20) as u16; if !v.iter().any(|x| x.0.id == i) { v.push((It { id: i, tag: 7, own: Box::new(0) }, r.below(9) as i32)); } }
             log.push(format!("append(queue of {})", v.len())); let longer = v.len() > m.len();
             let left = q.append_from(v.clone()); ck!(left == (0, 0, 0), "C07,C16,C13", "append leaves the other queue with (len, iter().count(), iter().len()) = {:?}", left);
             for (i, p) in v { if !m.contains_key(&i.id) { m.insert(i.id, (i.tag, p)); } else if longer { let cur = q.get(i.id); if let Some(c) = cur { m.insert(i.id, c); } } } }
@@ -347,14 +347,14 @@ fn step<T: Q>(q: &mut T, m: &mut Model, r: &mut Rng, log: &mut Vec<String>) -> R
         22 => { log.push("clone / eq / sorted / serde / convert".into());
             let c = q.clone(); ck!(c.same(q), "C14", "clone is not equal to its source");
             { // same contents in other arrangements / one pair different
-                let mut v: Vec<(It, i32)> = m.iter().map(|(k, v)| (It { id: *k, tag: v.0 }, v.1)).collect();
+                let mut v: Vec<(It, i32)> = m.iter().map(|(k, v)| (It { id: *k, tag: v.0, own: Box::new(0) }, v.1)).collect();
                 let a = T::from_vec(v.clone()); ck!(a.same(q) && q.same(&a), "C14", "a queue built from the same pairs (ascending item order) compares unequal");
                 v.reverse(); let mut b = T::new(); for (i, p) in v.iter().cloned() { b.push(i, p); }
                 ck!(b.same(q) && q.same(&b), "C14", "a queue built by pushing the same pairs in descending item order compares unequal");
                 if !v.is_empty() { let k = r.below(v.len() as u64) as usize;
                     let mut d = b.clone(); d.change(v[k].0.id, v[k].1 + 1); ck!(!d.same(q) && !q.same(&d), "C14", "queues differing in the priority of item {} compare equal", v[k].0.id);
                     let mut e = b.clone(); e.remove(v[k].0.id); ck!(!e.same(q) && !q.same(&e), "C14", "queues differing by one item compare equal");
-                    e.push(It { id: 9000, tag: 0 }, v[k].1); ck!(!e.same(q) && !q.same(&e), "C14", "queues of equal size differing in one item compare equal");
+                    e.push(It { id: 9000, tag: 0, own: Box::new(0) }, v[k].1); ck!(!e.same(q) && !q.same(&e), "C14", "queues of equal size differing in one item compare equal");
                     let mut c2 = q.clone(); c2.change(v[k].0.id, v[k].1 - 3); ck!(q.get(v[k].0.id).map(|x| x.1) == Some(v[k].1), "C14", "mutating a clone changed the source"); } }
             let s = c.clone().sorted_desc(); ck!(s.len() == m.len(), "C06", "sorted vec has {} of {} elements", s.len(), m.len());
             let ps: Vec<i32> = s.iter().map(|i| m.get(&i.id).map(|x| x.1).unwrap_or(i32::MIN)).collect();
@@ -364,7 +364,7 @@ fn step<T: Q>(q: &mut T, m: &mut Model, r: &mut Rng, log: &mut Vec<String>) -> R
             match q.roundtrip() { Ok(b) => { ck!(b.same(q), "C15", "serde round trip is not equal"); observe(&b, m).map_err(|f| Fail { props: "C15".into(), what: format!("after serde round trip: {}", f.what) })?; } Err(e) => return Err(Fail { props: "C15".into(), what: e }) }
             { // a serialized sequence that repeats items (adjacent and not): no panic, a consistent queue over the distinct items
                 let n = r.below(14) as usize; let mut v: Vec<(It, i32)> = vec![];
-                for _ in 0..n { let i = if !v.is_empty() && r.below(3) == 0 { v[v.len() - 1].0.id } else { r.below(9) as u16 }; v.push((It { id: i, tag: 5 }, r.below(9) as i32)); }
+                for _ in 0..n { let i = if !v.is_empty() && r.below(3) == 0 { v[v.len() - 1].0.id } else { r.below(9) as u16 }; v.push((It { id: i, tag: 5, own: Box::new(0) }, r.below(9) as i32)); }
                 let js = serde_json::to_string(&v).unwrap();
                 match catch_unwind(AssertUnwindSafe(|| T::from_json(&js))) {
                     Err(_) => return Err(Fail { props: "C15,C04".into(), what: format!("deserializing {} panicked", js) }),
@@ -389,7 +389,7 @@ fn step<T: Q>(q: &mut T, m: &mut Model, r: &mut Rng, log: &mut Vec<String>) -> R
                 let _ = catch_unwind(AssertUnwindSafe(|| if which2 == 6 { q.pop_hi_if_panic() } else { q.faulty(which2, k, id) })); return Err(Fail { props: "FAULT".into(), what: String::new() }); }
         _ => { let n = r.below(50) as usize; log.push(format!("capacity ops {}", n));
             match catch_unwind(AssertUnwindSafe(|| q.capacity_ops(n))) { Ok(Ok(())) => {}, Ok(Err(e)) => return Err(Fail { props: "C17".into(), what: e }), Err(_) => return Err(Fail { props: "C17,C04".into(), what: "capacity operation panicked".into() }) }
-            if r.below(2) == 0 { let v: Vec<(It, i32)> = m.iter().map(|(k, v)| (It { id: *k, tag: v.0 }, v.1)).collect(); log.push("rebuild through From<Vec>/FromIterator".into());
+            if r.below(2) == 0 { let v: Vec<(It, i32)> = m.iter().map(|(k, v)| (It { id: *k, tag: v.0, own: Box::new(0) }, v.1)).collect(); log.push("rebuild through From<Vec>/FromIterator".into());
                 *q = if r.below(2) == 0 { T::from_vec(v) } else { T::from_it(v, 0, Some(usize::MAX)) }; } }
     }
     observe(q, m).map_err(|f| Fail { props: if oplabel.is_empty() { f.props } else { format!("{},{}", f.props, oplabel) }, what: f.what })
